@@ -19,10 +19,13 @@ def ref_sentence(pid):
     short = ', '.join(x.split(' as ')[-1].replace('>::', '::') if x.startswith('<') else x for x in fns[:6]) + (' …' if len(fns) > 6 else '')
     return (' Plus %s.ref (exit census against a reviewed reference, DESIGN.md §3): for %d functions of this property (%s) every reviewed '
             'rejection is still present with the same trigger, every success / state-changing call carries at least the reviewed '
-            'conditions, and reviewed value expressions and durable writes are unchanged — insensitive to renaming, reordering, '
-            'logging and helper extraction.' % (pid, len(fns), short),
+            'conditions, and reviewed value expressions and durable writes are unchanged. A mere difference of description (helper '
+            'boundaries, flags, loops vs adaptors, combinators) is not reported: the rule fires when a reviewed decision / result / '
+            'effect is no longer made, when a way to succeed or to perform an effect bypasses a decision every reviewed way passed, or '
+            'when a returned value is computed differently (engine/facts.py, DESIGN.md §12).' % (pid, len(fns), short),
             ' The .ref rule is relative to the reviewed reference (rules/census_table.json); that the reference is right was '
-            'established by reading, not by the checker.')
+            'established by reading, not by the checker; a re-arrangement that keeps every reviewed decision, result and effect on '
+            'every path is not seen by it (the explicit guard / order / lock rules are the ones that look at placement).')
 
 
 checks = []
